@@ -168,8 +168,11 @@ C18Clause(st) ==
        ELSE (IF st.allow_config THEN "probe_config_or_complete." ELSE "works_after_removal.") \o c
 
 C19Clause(st) ==
-  LET c == PlainClause(st) IN
-  IF c = "" THEN "" ELSE (IF st.role = "thread" THEN "each_as_alone." ELSE "final_state_correct.") \o c
+  LET c0 == PlainClause(st)
+      E == st.obs.entered
+      \* alone, the first body receives the arguments and keywords of this very call
+      c == IF c0 = "" /\ Len(E) > 0 /\ E[1].call # st.call THEN "arguments_of_this_call" ELSE c0
+  IN IF c = "" THEN "" ELSE (IF st.role = "thread" THEN "each_as_alone." ELSE "final_state_correct.") \o c
 
 (***************************************************************************)
 (* C14: the "classes" of the world are nodes of the poset of passed type   *)
